@@ -29,6 +29,9 @@ F=[
  ("only remember a file as seen once it has been accepted", ['C16'], "follow-up: `stylua . c.txt` must still format the explicitly named c.txt"),
  ("apply --glob to explicitly named files when --respect-ignores", ['C16'], "`-g '**/*.txt' --respect-ignores -- a.lua` formatted a.lua"),
  ("do not panic when collapsing a function whose body is a single", ['C07'], "collapse_simple_statement FunctionOnly/Always + `function() goto l end` (Lua 5.2+): unreachable!() panic"),
+ ("keep the space inside an index whose bracket string is wrapped", ['C01'], "`t[([[x]])]` -> `t[[[x]]]` (does not parse)"),
+ ("keep the space after `[` when an index expression starts with a bracket string", ['C01'], "`t[ [[a]] .. b ]` -> `t[[[a]] .. b]` (does not parse)"),
+ ("keep the semicolon after a compound assignment", ['C02','C01'], "Luau `x += y; (f)()` lost its `;` and became one statement `x += y(f)()`"),
  ("do not let --glob bypass .styluaignore", ['C16'], "`-g '**/*.lua' .` formatted hidden files and files excluded by .styluaignore"),
 ]
 by={}
